@@ -23,8 +23,55 @@ ASSUMPTIONS = ["transport faults are BaseException('Error while writing'), OSErr
 BRINGUP = [bytes([0x80, 0x06]), bytes([0x80, 0x43]), bytes([0x80, 0x06]), bytes([0x80, 0x11])]
 
 
+def repair_rule(obs):
+    """After a link failure no command APDU may go out before the connection has been re-opened and ALL the
+    bring-up checks have been repeated (each answered) - however many requests that takes."""
+    answers = list(obs["answers"])
+    ai = 0
+    dirty = False
+    progress = None          # index of the next bring-up exchange expected on the re-opened link
+    for e in obs["trace"]:
+        if e[0] == "C":
+            if dirty:
+                progress = 0 if e[1] else None
+        elif e[0] == "A":
+            ans = answers[ai] if ai < len(answers) else ("T",)
+            ai += 1
+            if dirty:
+                if progress is not None and progress < len(BRINGUP) and e[1][:2] == BRINGUP[progress]:
+                    if ans[0] == "D":
+                        progress += 1
+                        if progress == len(BRINGUP):
+                            dirty, progress = False, None
+                    else:
+                        progress = None      # the repair was cut short: it has to start again
+                else:
+                    return {"key": "C11:apdu-before-full-repair",
+                            "what": "APDU %s sent after a link failure although the connection had not been "
+                                    "re-opened and the full bring-up repeated since" % e[1][:3].hex()}
+            if ans[0] in ("W", "R") and not (len(e[1]) > 1 and e[1][1] == 0xFF):
+                dirty, progress = True, None
+    return None
+
+
 def oracle(case, obs):
+    v = repair_rule(obs)
+    if v is not None:
+        return v
     meta = case["meta"]
+    if meta.get("rule_only"):
+        dev_code = -905 if case["mode"] == "v5" else -2
+        for k, want in meta["codes"].items():
+            if any(r["stop"] for r in obs["replies"][:k]) or k >= len(obs["replies"]):
+                # the manager stopped on an earlier request of the history (a fault met by the re-run bring-up
+                # itself is outside what the property states; see DESIGN.md, observations)
+                continue
+            rj = stack.reply_json(obs["replies"][k]) if k < len(obs["replies"]) else None
+            if rj is None or rj.get("errorcode") != want or obs["replies"][k]["stop"]:
+                return {"key": "C11:%s:reply-%d" % (meta["name"], k),
+                        "what": "request %d of the history answered %r, expected code %d and a running manager"
+                                % (k, obs["replies"][k]["raw"] if k < len(obs["replies"]) else None, want)}
+        return None
     dev_code = -905 if case["mode"] == "v5" else -2
     reps = obs["replies"]
     j0 = stack.reply_json(reps[0])
@@ -143,6 +190,20 @@ def gen_cases(rng, tier):
                     "meta": {"name": "getPubKey-then-" + name, "step": 0, "fault": f, "benign": False,
                              "reached": (lambda o: len([e for e in o["trace"] if e[0] == "A"]) > 0),
                              "n_first_events": (lambda o: 1), "connect_failures": k, "followup_code": code}})
+    # histories in which the repair itself is cut short: link failure, then a request whose re-run bring-up meets
+    # a time-out at its j-th check (answered with the device-error code), then a third request - which must
+    # start the repair over (close, re-open, all four checks) before its command goes out
+    for mode, first, (fu, fu_ans, fu_code) in (("v5", first_req, (fu_req, fu_answers, 0)),
+                                               ("v1", first1_req, (fu1_req, fu1_answers, 0))):
+        dev_code = -905 if mode == "v5" else -2
+        for f in ("W", "R"):
+            for j in range(len(commands.BRINGUP_SIGNER)):
+                script = [(f,)] + commands.BRINGUP_SIGNER[:j] + [("T",)] + commands.BRINGUP_SIGNER + list(fu_ans)
+                cases.append({
+                    "mode": mode, "kind": "ledger", "lines": [gen.line(first), gen.line(fu), gen.line(fu)],
+                    "script": script, "connects": [True, True],
+                    "meta": {"name": "repair-cut-short-at-%d" % j, "step": 0, "fault": f, "benign": False,
+                             "rule_only": True, "codes": {0: dev_code, 2: fu_code}}})
     return cases
 
 
